@@ -1,4 +1,9 @@
+#[cfg(not(prqlc_verif))]
 use std::collections::{hash_map::Entry, HashMap};
+#[cfg(prqlc_verif)]
+use std::collections::hash_map::Entry;
+#[cfg(prqlc_verif)]
+use crate::verif_hash::HashMap;
 
 use chumsky;
 use chumsky::input::BorrowInput;
